@@ -175,7 +175,11 @@ def expressions(draw, env, depth=3, allow_octal=True, allow_neg=True, allow_shif
         elif k == 4 and allow_octal:
             base = 8
         v = draw(st.one_of(st.integers(0, 12), st.sampled_from([0, 1, 2, 7, 8, 9, 10, 15, 16, 63, 64, 255, 256, 1000,
-                                                                65535, 65536, (1 << 31) - 1, 1 << 31, (1 << 32) - 1])))
+                                                                65535, 65536, (1 << 31) - 1, 1 << 31, (1 << 32) - 1]),
+                           # wide literals: beyond the 53 bits a double holds exactly, up to the 62-bit working range
+                           st.sampled_from([(1 << 53) + 1, (1 << 60) - 1, (1 << 61) + 12345, 0x7FFFFFFFFFFFFFF,
+                                            0x1FFFFFFFFFFFFFFF, (1 << 62) - 1, 999999999999999999]),
+                           st.integers(1 << 40, (1 << 62) - 1)))
         return Num(v, base)
 
     def build(d):
